@@ -785,6 +785,8 @@ class Container:
             amount_to_add = Unit.convert(source, quantity, 'U')
         else:
             amount_to_add = Unit.convert(source, quantity, config.moles_storage_unit)
+        if Unit.parse_quantity(quantity)[0] == 0:
+            volume_to_add = amount_to_add = 0.  # (0 L of a solid without volume is 0 x inf otherwise)
         if abs(amount_to_add) == float('inf') or abs(volume_to_add) == float('inf'):
             raise ValueError("Quantity must be finite.")
         # negative is what would be stored as a negative amount (the storage units decide, not litres or grams)
